@@ -185,7 +185,7 @@ def _contradicts(g: Term) -> bool:
     if g[0] == "outofrange":
         v = g[1]
         # A4: the clock fits 32 bits
-        if _mentions(v, "time.time"):
+        if _mentions(v, "time.time") or _mentions(v, "time.mktime"):
             return True
         return False
     if g[0] == "cmp" and g[1] == "<" and isinstance(g[2], tuple) and g[2] and g[2][0] == "len":
